@@ -12,7 +12,7 @@ RULE = ("Cases: (consistency) methods {hilbert,nht,quad} x sample rates {64..400
         "1-3 columns; (sinusoid) pure cosines with >=6 cycles per record, f <= sr/12, amplitude over 3 decades, start "
         "phase in [0,2pi); (roundtrip) frequency profiles {constant, ramp, sinusoidally modulated, random smooth} in 1-3 "
         "columns through phase_from_freq -> freq_from_phase; (scale) x -> c*x for c=2^k (|k|<=8) and real c in "
-        "[1e-3,1e3], plus amplitude_normalise sign/scale invariance; (stack) 3-D [samples x imfs x imfs2] input vs its 2-D slices. Oracle: shapes; 0<=IP<=2pi (exact 2pi counted); "
+        "[1e-3,1e3], plus amplitude_normalise sign/scale invariance; (stack) 3-D [samples x imfs x imfs2] input vs its 2-D slices; (columns) 2-4 column sets, optionally with one non-oscillating column (constant / ramp / zero / single bump) and in C / column-major / strided layout, vs each column alone. Oracle: shapes; 0<=IP<=2pi (exact 2pi counted); "
         "IF == sr*gradient(unwrap(IP))/2pi (1e-6 rel); interior-half medians |IF-f|/f, |IA-A|/A, circular |IP-truth| "
         "within calibrated tolerances (hilbert/nht also pointwise); roundtrip[i] == (f[i]+f[i+1])/2 inside, f[1], "
         "f[-1] at the ends (1e-9); IP/IF unchanged and IA scaled under c (1e-12 dyadic, 1e-6 real). Non-trivial: "
@@ -273,7 +273,56 @@ def oracle_stack(case, rec):
     return True
 
 
+@st.composite
+def columns_case(draw):
+    d = draw(amfm_case())
+    d['ncols'] = draw(st.integers(2, 4))
+    d['n'] = min(d['n'], 900)
+    d['degenerate'] = draw(st.sampled_from(['none', 'constant', 'ramp', 'zero', 'bump']))
+    d['where'] = draw(st.integers(0, 3))
+    d['layout'] = draw(st.sampled_from(['C', 'F', 'strided']))
+    return d
+
+
+def oracle_columns(case, rec):
+    """Every IMF column is transformed on its own: the result for column j of a set equals the result for that column
+    alone - also when another column of the set has no oscillation at all (a residual: constant, ramp, single bump)."""
+    import emd
+    from .. import gens
+    x = amfm(case['n'], case['sr'], case['k'], case['f_rel'], case['am'], case['fm'], case['ncols'])
+    n = x.shape[0]
+    dcol = None
+    if case['degenerate'] != 'none':
+        dcol = case['where'] % case['ncols']
+        t = np.arange(n) / n
+        x[:, dcol] = {'constant': np.full(n, 0.7), 'ramp': 2 * t - 0.3, 'zero': np.zeros(n),
+                      'bump': np.exp(-0.5 * ((t - 0.5) / 0.1) ** 2)}[case['degenerate']]
+    meth = case['method']
+    import warnings
+    with warnings.catch_warnings():
+        warnings.simplefilter('ignore')
+        IP, IF, IA = ft(emd, gens.relayout(x.copy(), case['layout']), case['sr'], meth, 'columns')
+        for j in range(case['ncols']):
+            if j == dcol:
+                continue
+            ip1, if1, ia1 = ft(emd, x[:, j:j + 1].copy(), case['sr'], meth, 'columns')
+            dph = np.abs(np.angle(np.exp(1j * (IP[:, j] - ip1[:, 0])))).max()
+            dif = np.abs(IF[:, j] - if1[:, 0]).max() / (np.abs(if1).max() + 1e-30)
+            dia = np.abs(IA[:, j] - ia1[:, 0]).max() / (np.abs(ia1).max() + 1e-30)
+            if not (dph <= 1e-9 and dif <= 1e-9 and dia <= 1e-9):
+                what = 'amplitude' if not dia <= 1e-9 else 'phase/frequency'
+                raise Violation('C09/columns/%s-depends-on-other-columns/%s' % (what, meth),
+                                'column %d of %d (degenerate column: %r at %r, layout %s): phase %.3g freq %.3g amp %.3g' % (
+                                    j, case['ncols'], case['degenerate'], dcol, case['layout'], dph, dif, dia))
+    rec.cls('method=' + meth)
+    rec.cls('degenerate=' + case['degenerate'])
+    rec.cls('layout=' + case['layout'])
+    return True
+
+
 CLAUSES = [
+    Clause('C09.columns', oracle_columns, strategy=columns_case(), quick=600, thorough=12000, shards=(8, 16),
+           nt_rule='every evaluated multi-column set'),
     Clause('C09.stack', oracle_stack, strategy=stack_case(), quick=240, thorough=6000, shards=(8, 16),
            nt_rule='every evaluated stack (>= 2 second-level IMFs)'),
     Clause('C09.consistency', oracle_consistency, strategy=amfm_case(), quick=1200, thorough=30000, shards=(4, 16),
